@@ -276,6 +276,11 @@ class FileStore(BaseEngine):
             plan['offset'] = pick(rng, (0, 0, 0, 0, 8, 12, 300))
             # the sink reports its size: len() == 0, i.e. falsy, while nothing has been written
             plan['sized_sink'] = rng.random() < 0.15
+            # the charset is assigned after construction (the attribute in force at the time of the call counts)
+            plan['late_charset'] = rng.random() < 0.2
+            # a filler sysex puts the second track's chunk header just before / at / after a multiple of 8 KiB
+            if len(tracks) >= 2 and rng.random() < 0.12:
+                plan['align'] = [pick(rng, (1, 1, 2)), pick(rng, (0, 1, 2, 3, 4, 5, 6, 7, 8))]
             plan['read_cap'] = pick(rng, (0, 0, 16, 50, 100, 4096))
             plan['frozen'] = cfg == 'roundtrip' and rng.random() < 0.15
             plan['debug'] = rng.random() < 0.04
@@ -448,14 +453,37 @@ class FileStore(BaseEngine):
         if plan.get('custom_meta'):
             register_custom_meta()
             self._stats['fault:application_defined_meta_type'] += 1
-        mf = MidiFile(type=plan['type'] if plan['type'] in (0, 1, 2) else 1, ticks_per_beat=plan['tpb'],
-                      charset=self._charset(plan))
+        if plan.get('late_charset'):
+            mf = MidiFile(type=plan['type'] if plan['type'] in (0, 1, 2) else 1, ticks_per_beat=plan['tpb'],
+                          charset='cp437')
+            mf.charset = self._charset(plan)
+            self._stats['fault:charset_assigned_after_construction'] += 1
+        else:
+            mf = MidiFile(type=plan['type'] if plan['type'] in (0, 1, 2) else 1, ticks_per_beat=plan['tpb'],
+                          charset=self._charset(plan))
         for tr in plan['tracks']:
             if plan.get('frozen'):
                 mf.tracks.append(MidiTrack(freeze_message(build(e)) for e in tr))
             else:
                 mf.tracks.append(MidiTrack(build(e) for e in tr))
         return mf
+
+    def _align_second_track(self, mf, align, stats):
+        """Insert a filler sysex at the start of track 0 so that the chunk header of track 1 starts `j` bytes before
+        the k-th multiple of 8192 (readers that work in blocks meet a multi-byte read across the block edge)."""
+        k, j = align
+        try:
+            probe = self._save(mf, 'file', simdisk.SimDisk(), name='probe.mid')
+        except Exception:
+            return
+        second_at = 22 + int.from_bytes(probe[18:22], 'big')
+        need = 8192 * k - j - second_at
+        for vl in (1, 2, 3):
+            n = need - 3 - vl               # delta(1) + F0(1) + length prefix(vl) + n data bytes + F7(1)
+            if n >= 0 and len(simdisk.enc_vlq(n + 1)) == vl:
+                mf.tracks[0].insert(0, Message('sysex', data=[(i * 7) % 128 for i in range(n)], time=0))
+                stats['fault:second_track_header_near_8k_boundary'] += 1
+                return
 
     def _save(self, mf, via, disk, name='f.mid', offset=0, sized=False):
         if via != 'filename' and (offset or sized):
@@ -578,6 +606,8 @@ class FileStore(BaseEngine):
             except Exception:
                 pass
         mf = self._mk(plan)
+        if plan.get('align') and len(mf.tracks) >= 2:
+            self._align_second_track(mf, plan['align'], stats)
         model = [normalise([thaw_message(m) for m in tr]) for tr in mf.tracks]
         if plan.get('frozen'):
             stats['fault:frozen_messages_in_tracks'] += 1
